@@ -46,6 +46,39 @@ def ddmin(items, fails, max_runs=400):
     return cur, runs[0]
 
 
+def ddmin_par(items, fails, max_rounds=40, nproc=16):
+    """Delta debugging with the candidates of one granularity evaluated in
+    parallel; the lowest-index successful candidate is taken, so the result is
+    a pure function of `fails` (no dependence on completion order)."""
+    cur = list(items)
+    n = 2
+    rounds = 0
+    runs = 0
+    while len(cur) >= 2 and rounds < max_rounds:
+        rounds += 1
+        chunk = max(1, len(cur) // n)
+        cands = []
+        i = 0
+        while i < len(cur):
+            c = cur[:i] + cur[i + chunk:]
+            if c:
+                cands.append(c)
+            i += chunk
+        if not cands:
+            break
+        res = vsim.pmap(fails, cands, nproc=nproc)
+        runs += len(cands)
+        hit = [k for k, ok in enumerate(res) if ok]
+        if hit:
+            cur = cands[hit[0]]
+            n = max(n - 1, 2)
+        else:
+            if chunk == 1:
+                break
+            n = min(len(cur), n * 2)
+    return cur, runs
+
+
 class Outcome:
     """Accumulates what a check run found."""
 
